@@ -591,3 +591,6 @@ Qed.
 Example rm_example :
   rm_run [RAdd 0 4; RAdd 6 9; RRemove 2 7; RAdd 4 5] = [(0, 2); (4, 5); (7, 9)].
 Proof. reflexivity. Qed.
+
+Example wf_example : WF [(0, 2); (4, 5); (7, 9)].
+Proof. exists (-1). cbn. lia. Qed.
